@@ -1,14 +1,20 @@
 //! splitmix64 — every random choice of the harness derives from one state.
 #[derive(Clone)]
-pub struct Rng(pub u64);
+pub struct Rng(pub u64, u64);
 
 impl Rng {
     pub fn new(seed: u64) -> Self {
-        Rng(seed.wrapping_mul(0x9E3779B97F4A7C15) ^ 0xD1B54A32D192ED03)
+        let s = seed.wrapping_mul(0x9E3779B97F4A7C15) ^ 0xD1B54A32D192ED03;
+        Rng(s, s)
     }
+    /// The generator of case `salt`: a function of this generator's *origin* and of the salt only —
+    /// not of how many numbers or forks were drawn before — so that a case replayed alone
+    /// (`--case N`) sees exactly the input it saw in the full run.
     pub fn fork(&mut self, salt: u64) -> Rng {
-        let a = self.next();
-        Rng::new(a ^ salt.wrapping_mul(0xBF58476D1CE4E5B9))
+        let mut z = self.1 ^ salt.wrapping_add(1).wrapping_mul(0xBF58476D1CE4E5B9);
+        z = (z ^ (z >> 30)).wrapping_mul(0xBF58476D1CE4E5B9);
+        z = (z ^ (z >> 27)).wrapping_mul(0x94D049BB133111EB);
+        Rng::new(z ^ (z >> 31))
     }
     pub fn next(&mut self) -> u64 {
         self.0 = self.0.wrapping_add(0x9E3779B97F4A7C15);
